@@ -140,6 +140,22 @@ fn main() {
         let _ = std::io::stdout().flush();
         std::process::exit(code);
     }
+    if args[0] == "fuzz-seeds" {
+        // rcv fuzz-seeds <dir> <seed>: deterministic starting corpus for the libFuzzer stage
+        let dir = PathBuf::from(args.get(1).cloned().unwrap_or_else(|| usage()));
+        let seed: u64 = args.get(2).and_then(|s| s.parse().ok()).unwrap_or(0);
+        rcv::fuzzbridge::write_seed_corpus(&dir, seed);
+        return;
+    }
+    if args[0] == "fuzz-merge" {
+        // rcv fuzz-merge <ID> <status> <jobs> <runs per job>: folds the stage's statistics into evidence/<ID>.json
+        let id = args.get(1).cloned().unwrap_or_else(|| usage());
+        let status = args.get(2).cloned().unwrap_or_default();
+        let jobs: u64 = args.get(3).and_then(|s| s.parse().ok()).unwrap_or(0);
+        let runs: u64 = args.get(4).and_then(|s| s.parse().ok()).unwrap_or(0);
+        rcv::fuzzbridge::merge_evidence(&id, &status, jobs, runs);
+        return;
+    }
     if args[0] == "list" {
         for id in props::ids() {
             println!("{}", id);
